@@ -203,6 +203,7 @@ def run_system_case(ctx, res, seed, cost_kind):
     y1, y2 = Variable('y1', domain=(0.5, 2.5)), Variable('y2')
     r1 = cc.Recorder(f1, ['x0', 'x1'], ['y1'], na1, True, cost_fn(cost_kind))
     r2 = cc.Recorder(f2, ['y1', 'x1'], ['y2'], 0, False, cost_fn(cost_kind))
+    r2.no_fidelity_arg = (seed % 2 == 0) or cost_kind == 'const'    # single-fidelity model without a `model_fidelity` parameter
     sgk = dict(opt_args={'locally_biased': False, 'maxfun': 60})
     c1 = Component(r1.model(), inputs=[x0, x1], outputs=[y1], name='c1', vectorized=True,
                    model_fidelity=(1,) * na1, data_fidelity=(2, 2), training_data=SparseGrid(**sgk))
